@@ -80,7 +80,7 @@ def kepler_exact(mu, r0v, v0v, dt, terms=False):
         for _ in range(4):
             G0, G1, G2, G3 = Gfun(beta, X)
             X = X - (r0 * X + eta0 * G2 + zeta0 * G3 - dt) / (r0 + eta0 * G1 + zeta0 * G2)
-        if abs(F(X)) > mp.mpf(10) ** -30 * (abs(dt) + r0 * abs(X)):
+        if not (abs(F(X)) <= mp.mpf(10) ** -30 * (abs(dt) + r0 * abs(X))):
             raise ArithmeticError("reference: Newton polish did not converge")
     G0, G1, G2, G3 = Gfun(beta, X)
     r = r0 + eta0 * G1 + zeta0 * G2
@@ -190,7 +190,7 @@ class Case:
         for k in range(6):
             tol = K * D[k] + 64 * U * (sp if k < 3 else sv)
             self.worst = max(getattr(self, "worst", 0.0), abs(got[k] - ref[k]) / (D[k] + 2 * U * (sp if k < 3 else sv)))
-            if abs(got[k] - ref[k]) > tol:
+            if not (abs(got[k] - ref[k]) <= tol):
                 if line is not None and line[3] > 1 and math.sqrt(line[5] / abs(line[4])) * abs(line[2]) / (abs(line[4]) * (line[3] - 1)) > 700:
                     s0, T = line[0], line[1]
                     lin = [s0[j] + s0[j + 3] * T for j in range(3)] + list(s0[3:])
@@ -239,7 +239,7 @@ class Case:
                         Vt = []
                         self.judge(out, r2, self.inertial_conditioning(mu, s_in, dt, r2, D2), *args, Vt, K=8192.0, line=(s_in, dt, dt, e, a, mu))
                     V.extend(Vt)
-                    if abs(t - dt) > 4 * U * abs(dt):
+                    if not (abs(t - dt) <= 4 * U * abs(dt)):
                         V.append(("step:time:%s" % integ[0], "t=%r after one step of dt=%r [%s]" % (t, dt, tag)))
         # two steps with an output in between, in the deferred-synchronisation modes (the body must still be on the exact orbit)
         for integ in [x for x in steppers if len(x) == 3]:
